@@ -43,12 +43,12 @@ WATCHES = ['{n0}', 'len({n0}) if hasattr({n0}, "__len__") else -1', '[{n0}, {n1}
 
 def skeleton(v, depth=0):
     if depth > 2:
-        return type(v).__name__
+        return snapcheck.type_name(v)
     if type(v) in (list, tuple, set, frozenset):
-        return [type(v).__name__, len(v)] + [skeleton(x, depth + 1) for x in list(v)[:3]]
+        return [snapcheck.type_name(v), len(v)] + [skeleton(x, depth + 1) for x in list(v)[:3]]
     if type(v) is dict:
         return ['dict', len(v)]
-    return type(v).__name__
+    return snapcheck.type_name(v)
 
 
 def case_frame(seed, out, spec, wd):
@@ -371,7 +371,7 @@ class _ProtoExpect:
             s = loc.get('self')
             self.stack.append({'file': f.f_code.co_filename, 'func': f.f_code.co_name, 'line': f.f_lineno,
                                'cls': type(s).__name__ if s is not None else None,
-                               'locals': {k: (type(v).__name__, snapcheck.safe_str(v), id(v),
+                               'locals': {k: (snapcheck.type_name(v), snapcheck.safe_str(v), id(v),
                                               len(v) if type(v) in (list, dict, tuple, set) else None)
                                           for k, v in loc.items()}})
             f = f.f_back
